@@ -43,4 +43,32 @@ theorem code_get_slice_partition_2d (segments size : Nat) (cols : Int) (hseg : 1
   ⟨C19.getSlice segments size, tie_get_slice_2d segments size cols hseg, C19.getSlice_partition segments size hseg,
     C19.getSlice_length_le segments size hseg⟩
 
+/-- **the slice `_enumerate_chunk_slices` builds for position `p` of an axis is the model's `axisSlices` entry**: offset = sum of
+the preceding chunks, length = the chunk itself — for every chunk tuple and every position on it.  (The enumeration order over
+the axes — `np.ndindex` — and the loop frame are required verbatim by the translator; `enumerate_mem_iff` / `axisSlices_chain`
+of `Props/C19.lean` then give: every position exactly once, consecutive slices covering each axis.) -/
+theorem tie_chunk_slice (cs : List Nat) (p : Nat) (hp : p < cs.length) :
+    (C19.axisSlices cs 0)[p]? =
+      some (((Gen.chunk_slice (cs.map Int.ofNat) p).start).toNat, ((Gen.chunk_slice (cs.map Int.ofNat) p).stop).toNat) ∧
+    (Gen.chunk_slice (cs.map Int.ofNat) p).step = none := by
+  have hg := C19.axisSlices_get cs 0 p hp
+  have hneg : ¬ ((p : Int) < 0) := by omega
+  have hget : Gen.pyListGet (cs.map Int.ofNat) (p : Int) = ((cs[p]! : Nat) : Int) := by
+    simp only [Gen.pyListGet, hneg, if_false, Int.toNat_natCast]
+    simp [List.getD, hp]
+  have hsum : ∀ l : List Nat, (l.map Int.ofNat).sum = ((l.sum : Nat) : Int) := by
+    intro l
+    induction l with
+    | nil => simp
+    | cons a l ih => simp [ih]
+  have htake : (Gen.pyListTake (cs.map Int.ofNat) (p : Int)).sum = (((cs.take p).sum : Nat) : Int) := by
+    simp only [Gen.pyListTake, hneg, if_false, Int.toNat_natCast, ← List.map_take, hsum]
+  refine ⟨?_, rfl⟩
+  rw [hg]
+  simp only [Gen.chunk_slice, hget, htake, Nat.zero_add]
+  have e : (((cs.take p).sum : Nat) : Int) + ((cs[p]! : Nat) : Int) = (((cs.take p).sum + cs[p]! : Nat) : Int) := by
+    push_cast; rfl
+  rw [e]
+  simp only [Int.toNat_natCast, Nat.zero_add]
+
 end PyresampleModel.Tie
